@@ -17,6 +17,14 @@ from rmc import pipeline  # noqa: E402
 from checks import common  # noqa: E402
 from checks import c05  # noqa: E402
 from checks import c06  # noqa: E402
+from checks import c02, c15  # noqa: E402
+
+
+def c02_case(assigns, summary):
+    case = c02.build(assigns, 'w')
+    case.update(space='A')
+    return {'key': pipeline.case_key('C02', case), 'summary': summary, 'case': case}
+
 
 
 def c05_case(*args):
@@ -82,7 +90,26 @@ FINDINGS = [
          what="len(name) / flash_pattern(name) / glyph(slot, name) and list bookkeeping were folded from a flow-insensitive environment: stale after a re-binding or list mutation inside if/while/for/try, the main loop or a helper; unsound list mirror for run-time elements", cases=[]),
     dict(id="KF-C03-shared-lists-and-helper-globals", property="C03", status="fixed", commit="9f359f9",
          what="tracked list values were shared by reference between sibling branch scopes (a mirrored append/remove in one arm changed the fold in another), and globals re-bound/mutated by a helper were still folded as constants by its callers", cases=[]),
+    dict(id="KF-C02-call-site-variants", property="C02", status="fixed", commit="9bca83d",
+         what="helper call signatures were only recorded on the right-hand side of assignments (mon.write(half(2.5)) / show(2.5) bound the int variant and truncated); with int+float or bool+String variants a bare double / string literal made the call ambiguous or chose the wrong overload",
+         cases=[prog("C02", c02.PRO + "\n".join(c02.HELPERS + c02.HEAD) + "\nmon.write(half(2.5))\nmon.write(idf(a * 0.5))\nr1 = idf(3)\nr2 = idf(2.5)\nmon.write(r2)\n", [{"passes": 0, "ar": {"A0": [3]}}], "float arguments at non-assignment call sites; int and float variants of one helper", space="P")]),
     # ---------------------------------------------------------------- open
+    dict(id="KF-C02-first-assignment-wins", property="C02", status="open", commit=None,
+         what="a name is declared with the C++ type of its FIRST assignment: a later float assigned to an int name is truncated, an int assigned to a bool name becomes 1, and an if-branch int / else-branch float takes the first branch's type",
+         cases=[c02_case([("int_lit", "top"), ("float_lit", "top")], "x = 3; x = 2.5 (top level)"),
+                c02_case([("int_expr", "if"), ("float_expr", "loop")], "int in an if-branch, float later in the main loop"),
+                c02_case([("bool_lit", "top"), ("int_expr", "top")], "x = True; x = a + 1")]),
+    dict(id="KF-C02-builtins-typed-int", property="C02", status="open", commit=None,
+         what="abs()/min()/max() results are always typed int: m = max(1, 2.5) stores 2",
+         cases=[prog("C02", c02.PRO + "\n".join(c02.HELPERS + c02.HEAD) + "\nm = max(1, 2.5)\nmon.write(m)\nq = abs(a - 6.5)\nmon.write(q)\n", [{"passes": 0, "ar": {"A0": [3]}}], "m = max(1, 2.5); q = abs(a - 6.5)", space="A")]),
+    dict(id="KF-C01-c-operator-semantics", property="C01", status="open", commit=None,
+         what="'//' and '%' with a negative operand use C truncation, '**' is emitted verbatim (does not compile), and 'and'/'or' yield 0/1 instead of the operand value",
+         cases=[prog("C01", P + AB + "mon.write(a // 2)\nmon.write(a % 3)\n", [{"passes": 0, "ar": {"A0": [3], "A1": [12]}}], "a = -7: a // 2 and a % 3"),
+                prog("C01", P + AB + "mon.write(a and b)\nmon.write(a or b)\n", [{"passes": 0, "ar": {"A0": [3], "A1": [12]}}], "a and b / a or b with integer operands")]),
+    dict(id="KF-C15-chained-comparison-double-read", property="C15", status="open", commit=None,
+         what="a chained comparison evaluates its middle operand twice on the device: 100 < pot.read() < 900 performs two analogRead()s for one read()",
+         cases=[prog("C15", c15.PRO + 'pot = Potentiometer("A0")\nwhile True:\n    if 100 < pot.read() < 900:\n        mon.write("mid")\n    else:\n        mon.write("out")\n',
+                     [{"passes": 2, "ar": {"A0": [500, 950, 50, 500]}}], "100 < pot.read() < 900 with samples 500, 950, 50, 500", space="P", meta={})]),
     dict(id="KF-C06-named-exception", property="C06", status="open", commit=None,
          what="'except Exception:' is emitted as 'catch (Exception &)' although no such type exists in the sketch (does not compile; the project's own test pins this text)",
          cases=[prog("C06", c06.PRO + "try:\n    tb = a + 1\nexcept Exception:\n    tb = 0\nmon.write(tb)\n", [{"passes": 0, "ar": {"A0": [4]}}], "try/except with a named exception", space="F", feats=["try_named"])]),
